@@ -1,22 +1,12 @@
 ----------------------------- MODULE MC_Compile -----------------------------
 (***************************************************************************)
-(* C01 (and the program family shared by C02, C03, C10, C14, C16, C17):    *)
-(* for every program of the generated family and every witness assignment  *)
-(*   - the program is well-formed under the static rules (Static.tla);     *)
-(*   - strict call-by-value evaluation (Dynamic.tla) and the Simplicity    *)
-(*     term the translation scheme produces (Codegen.tla), evaluated with  *)
-(*     Simplicity's semantics, give the same verdict, with and without     *)
-(*     debug symbols;                                                      *)
-(*   - code generation never fails on a well-formed program.               *)
-(* Every explored program is emitted with its expected verdict vector and  *)
-(* replayed against the real compiler + decoder + Bit Machine.             *)
+(* C01 family (shared by C02, C03, C14, C16, C17): every expression form   *)
+(* over a small type universe, one production deep around each form, with  *)
+(* one or two witnesses in scope; custom functions (0-3 parameters, nested  *)
+(* calls, shadowing, asymmetric argument use).  The value of the form under *)
+(* test is bound to r and compared with the witness EXP by Observe.         *)
 (***************************************************************************)
-EXTENDS Family, Json, IOUtils
-
-Thorough == IOEnv.VERIF_TIER = "thorough"
-
-VARIABLES phase, fam, prog, res
-vars == <<phase, fam, prog, res>>
+EXTENDS ProgMC
 
 \* ---- small type universe of the family -------------------------------------------------
 T2 == TU(2)
@@ -62,12 +52,12 @@ Elim(ty, ctx) ==
 
 \* casts into ty from layout-equal source types
 CastSources(ty) == {s \in DataTypes \cup {TEither(TUnit, TUnit), TTup(<<T1, T1>>), TTup(<<T2, T2>>), TEither(TUnit, T2),
-                                         TTup(<<T2>>), TTup(<<T1, TTup(<<TBool, T2>>)>>), TTup(<<T2, T2>>),
+                                         TTup(<<T2>>), TTup(<<T1, TTup(<<TBool, T2>>)>>),
                                          TTup(<<TOpt(TArr(T1, 2)), TList(T1, 2)>>), TTup(<<TOpt(TArr(T1, 2)), TOpt(T1)>>)}
                     : s # ty /\ CastOK(s, ty)}
 Casts(ty, ctx) == UNION {{CastE(s, e) : e \in Leaves(s, ctx) \cup Constr(s, ctx)} : s \in CastSources(ty)}
 
-\* match forms producing ty: scrutinee a variable or leaf; arms leaves (in both arm orders)
+\* match forms producing ty: scrutinee a variable; arms leaves (in both arm orders)
 Matches(ty, ctx) ==
   LET arms(st) ==
         CASE st.k = "bool" -> {<<Arm(MFalse, a), Arm(MTrue, b)>> : a \in Leaves(ty, ctx), b \in Leaves(ty, ctx)}
@@ -78,65 +68,98 @@ Matches(ty, ctx) ==
       sts == {t \in {ctx[x] : x \in DOMAIN ctx} : t.k \in {"bool", "opt", "either"}}
   IN UNION {UNION {{EMatch(s, a), EMatch(s, <<a[2], a[1]>>)} : s \in Vars(st, ctx), a \in arms(st)} : st \in sts}
 
-Forms(ty, ctx) == Leaves(ty, ctx) \cup Constr(ty, ctx) \cup Elim(ty, ctx) \cup Casts(ty, ctx) \cup Matches(ty, ctx)
+\* a few jets inside ordinary expressions (the jet family proper is MC_Jets)
+JetForms(ty, ctx) ==
+  IF ty = TBool THEN {JetE("eq_1", <<a, b>>) : a \in Leaves(T1, ctx), b \in Leaves(T1, ctx)}
+                     \cup {JetE("some_1", <<a>>) : a \in Leaves(T1, ctx)}
+  ELSE IF ty = T1 THEN {JetE("xor_1", <<a, b>>) : a \in Leaves(T1, ctx), b \in Leaves(T1, ctx)}
+                       \cup {JetE("complement_1", <<a>>) : a \in Leaves(T1, ctx)}
+  ELSE {}
 
-\* ---- families: (witness declarations, result type) -> programs ----------------------------
-\* contexts: one or two witnesses
+Forms(ty, ctx) == Leaves(ty, ctx) \cup Constr(ty, ctx) \cup Elim(ty, ctx) \cup Casts(ty, ctx) \cup Matches(ty, ctx)
+                  \cup JetForms(ty, ctx)
+
+\* ---- custom functions ------------------------------------------------------------------------
+FnDefs ==
+  <<IFn("idf", <<Param("a", T2)>>, <<T2>>, BlkE(<<>>, V("a"))),
+    IFn("swap", <<Param("a", T1), Param("b", T2)>>, <<TTup(<<T2, T1>>)>>, BlkE(<<>>, ETuple(<<V("b"), V("a")>>))),
+    IFn("fst", <<Param("a", T2), Param("b", T2)>>, <<T2>>, BlkE(<<>>, V("a"))),
+    IFn("snd", <<Param("a", T2), Param("b", T2)>>, <<T2>>, BlkE(<<>>, V("b"))),
+    IFn("rot", <<Param("a", T2), Param("b", T2), Param("c", T2)>>, <<TArr(T2, 3)>>, BlkE(<<>>, EArray(<<V("c"), V("a"), V("b")>>))),
+    IFn("konst", <<>>, <<T2>>, BlkE(<<>>, Dec(2))),
+    IFn("shadow", <<Param("a", T2), Param("b", T2)>>, <<T2>>, BlkE(<<SLet(PId("a"), T2, V("b"))>>, V("a"))),
+    IFn("twice", <<Param("a", T2)>>, <<TTup(<<T2, T2>>)>>, BlkE(<<>>, ETuple(<<ECall(CFn("idf"), <<V("a")>>), ECall(CFn("konst"), <<>>)>>))),
+    IFn("chk", <<Param("a", TBool)>>, <<>>, Blk(<<SExpr(AssertE(V("a")))>>)),
+    IFn("sel", <<Param("c", TBool), Param("x", T2), Param("y", T2)>>, <<T2>>,
+        BlkE(<<>>, EMatch(V("c"), <<Arm(MFalse, V("x")), Arm(MTrue, V("y"))>>))),
+    IFn("force", <<Param("o", TOptU2)>>, <<T2>>, BlkE(<<>>, Call1(CUnwrap, V("o")))),
+    IFn("deep", <<Param("a", T2), Param("b", T2)>>, <<T2>>,
+        BlkE(<<>>, ECall(CFn("sel"), <<JetE("eq_1", <<Dec(1), Dec(1)>>), ECall(CFn("snd"), <<V("b"), V("a")>>), V("b")>>)))>>
+
+FnCalls(ctx) ==
+  LET L2 == Leaves(T2, ctx) L1 == Leaves(T1, ctx) LB == Leaves(TBool, ctx) LO == Leaves(TOptU2, ctx) IN
+     {[t |-> T2, e |-> ECall(CFn("idf"), <<a>>)] : a \in L2}
+  \cup {[t |-> TTup(<<T2, T1>>), e |-> ECall(CFn("swap"), <<a, b>>)] : a \in L1, b \in L2}
+  \cup {[t |-> T2, e |-> ECall(CFn(f), <<a, b>>)] : f \in {"fst", "snd", "shadow", "deep"}, a \in L2, b \in L2}
+  \cup {[t |-> TArr(T2, 3), e |-> ECall(CFn("rot"), <<a, b, Dec(3)>>)] : a \in L2, b \in L2}
+  \cup {[t |-> T2, e |-> ECall(CFn("konst"), <<>>)]}
+  \cup {[t |-> TTup(<<T2, T2>>), e |-> ECall(CFn("twice"), <<a>>)] : a \in L2}
+  \cup {[t |-> TUnit, e |-> ECall(CFn("chk"), <<a>>)] : a \in LB}
+  \cup {[t |-> T2, e |-> ECall(CFn("sel"), <<c, a, b>>)] : c \in LB, a \in L2, b \in L2}
+  \cup {[t |-> T2, e |-> ECall(CFn("force"), <<o>>)] : o \in LO \cup {ESome(a) : a \in L2}}
+  \cup {[t |-> T2, e |-> ECall(CFn("idf"), <<ECall(CFn("fst"), <<a, b>>)>>)] : a \in L2, b \in L2}
+
+\* ---- evaluated-and-discarded expressions (strict evaluation: a panic is never lost) ---------
+\* possibly failing expressions of type u2 over a: bool, b: Option<u2>, c: Either<u1, u2>
+Failing == {Call1(CUnwrap, V("b")), Call1(CUnwrapRight(T1), V("c")), ECall(CFn("force"), <<V("b")>>),
+            BlkE(<<SExpr(AssertE(V("a")))>>, Dec(1)),
+            EMatch(V("a"), <<Arm(MFalse, ECall(CPanic, <<>>)), Arm(MTrue, Dec(2))>>),
+            EMatch(V("b"), <<Arm(MSome("v", T2), V("v")), Arm(MNone, ECall(CPanic, <<>>))>>)}
+FailingUnit == {AssertE(V("a")), ECall(CFn("chk"), <<V("a")>>),
+                EMatch(V("a"), <<Arm(MTrue, EUnit), Arm(MFalse, ECall(CPanic, <<>>))>>),
+                AssertE(Call1(CIsNone(T2), V("b"))),
+                Blk(<<SLet(PIgn, T2, Call1(CUnwrap, V("b")))>>)}
+DiscardStmts ==
+     {<<SLet(PIgn, T2, e)>> : e \in Failing}
+  \cup {<<SLet(PTup(<<PIgn, PIgn>>), TTup(<<T2, TBool>>), ETuple(<<e, EBool(TRUE)>>))>> : e \in Failing}
+  \cup {<<SLet(PArr(<<PIgn, PIgn>>), TArr(T2, 2), EArray(<<Dec(0), e>>))>> : e \in Failing}
+  \cup {<<SLet(PTup(<<>>), TUnit, e)>> : e \in FailingUnit}
+  \cup {<<SLet(PId("u"), T2, e)>> : e \in Failing}
+  \cup {<<SLet(PTup(<<PId("u"), PIgn>>), TTup(<<T2, T2>>), ETuple(<<Dec(3), e>>))>> : e \in Failing}
+  \cup {<<SExpr(e)>> : e \in FailingUnit}
+  \cup {<<SLet(PIgn, T2, ECall(CFn("fst"), <<Dec(1), e>>))>> : e \in Failing}
+  \cup {<<SLet(PIgn, T2, Call1(CDbg, e))>> : e \in Failing}
+  \cup {<<SLet(PIgn, TOptU2, ESome(e))>> : e \in Failing}
+  \cup {<<SLet(PIgn, TList(T2, 4), EList(<<Dec(1), e>>))>> : e \in Failing}
+  \cup {<<SExpr(Blk(<<SLet(PIgn, T2, e)>>))>> : e \in Failing}
+  \cup {<<SLet(PIgn, TUnit, EMatch(V("a"), <<Arm(MFalse, Blk(<<SLet(PIgn, T2, e)>>)), Arm(MTrue, EUnit)>>))>> : e \in Failing}
+  \cup {<<SLet(PIgn, T2, e1), SLet(PIgn, T2, e2)>> : e1 \in Failing, e2 \in {Call1(CUnwrap, V("b")), Call1(CUnwrapRight(T1), V("c"))}}
+DiscardDecls == <<<<"A", TBool, "a">>, <<"B", TOptU2, "b">>, <<"C", TEi, "c">>>>
+
+\* ---- families ---------------------------------------------------------------------------------
 Ctxs == {<<<<"A", a, "a">>>> : a \in {T2, TBool, TOptU2, TEi, TPair}}
         \cup {<<<<"A", TBool, "a">>, <<"B", b, "b">>>> : b \in {T2, TEi, TOptU2}}
 CtxOf(decls) == Extend(EmptyFn, [i \in 1..Len(decls) |-> <<decls[i][3], decls[i][2]>>])
 
-ResultTypes == IF Thorough THEN DataTypes ELSE {TBool, T2, TOptU2, TEi, TPair, TArr2, TL4, TUnit}
+ResultTypes == IF Thorough THEN DataTypes ELSE {TBool, T1, T2, TOptU2, TEi, TPair, TArr2, TL4, TUnit}
 
-Families == {<<d, t>> : d \in Ctxs, t \in ResultTypes}
+FnCtxs == {<<<<"A", T2, "a">>>>, <<<<"A", T2, "a">>, <<"B", T2, "b">>>>, <<<<"A", TBool, "a">>, <<"B", TOptU2, "b">>>>,
+           <<<<"A", T1, "a">>, <<"B", T2, "b">>>>}
 
-ProgramsOf(f) ==
-  LET decls == f[1] ty == f[2] IN
-  {[items |-> ObsProgram(<<>>, decls, <<>>, ty, e), wdecls |-> ObsWitDecls(decls, ty), args |-> EmptyFn]
-     : e \in Forms(ty, CtxOf(decls))}
+MCFamilies == {[kind |-> "form", decls |-> d, ty |-> t] : d \in Ctxs, t \in ResultTypes}
+              \cup {[kind |-> "fn", decls |-> d, f |-> fname] : d \in FnCtxs,
+                       fname \in {"idf", "swap", "fst", "snd", "shadow", "deep", "rot", "konst", "twice", "chk", "sel", "force"}}
+              \cup {[kind |-> "discard", g |-> i] : i \in 0..3}
 
-\* ---- checking one program: done in the action, stored in res ------------------------------
-WitCap == 2
-Check(p) ==
-  LET an == Analyze(p.items)
-      wf == ~IsErr(an)
-  IN IF ~wf THEN [wf |-> FALSE, points |-> <<>>, vsrc |-> <<>>, vsimp |-> <<>>, vdbg |-> <<>>, cannot |-> FALSE, wtypesOK |-> FALSE]
-     ELSE \* quantifier-bound names are evaluated once (a LET would be re-evaluated at every use inside
-          \* the function constructors below - measured: 100 x slower)
-          CHOOSE r \in {[wf |-> TRUE,
-                         points |-> [i \in 1..Len(space) |-> [j \in 1..Len(p.wdecls) |-> space[i][p.wdecls[j][1]]]],
-                         vsrc |-> [i \in 1..Len(space) |-> RunSrc(p.items, space[i], p.args)],
-                         vsimp |-> [i \in 1..Len(space) |-> RunSimp(t0, space[i], wtypes)],
-                         vdbg |-> [i \in 1..Len(space) |-> RunSimp(t1, space[i], wtypes)],
-                         cannot |-> HasCannot(t0),
-                         wtypesOK |-> an.wits = wtypes] :
-                            wtypes \in {Extend(EmptyFn, p.wdecls)},
-                            space \in {SetToSeq(WitSpace(p.wdecls, WitCap))},
-                            t0 \in {Compile(p.items, p.args, FALSE)},
-                            t1 \in {Compile(p.items, p.args, TRUE)}} : TRUE
-
-Init == phase = "fam" /\ fam \in Families /\ prog = <<>> /\ res = <<>>
-Next == /\ phase = "fam"
-        /\ \E p \in ProgramsOf(fam) : prog' = p /\ res' = Check(p)
-        /\ phase' = "prog" /\ fam' = fam
-Spec == Init /\ [][Next]_vars
-
-\* ---- properties ---------------------------------------------------------------------------
-\* the generator only produces well-formed programs (a failure is a defect of generator or Static.tla)
-GeneratedWellFormed == phase = "prog" => res.wf
-\* the witness types the analysis derives are the declared ones
-WitnessTypesAsDeclared == phase = "prog" => res.wtypesOK
-\* C01 on the model: translation scheme + Simplicity semantics = book semantics
-CompileCorrect == phase = "prog" => res.vsimp = res.vsrc
-\* C14 on the model: the debug wrapper is behaviour neutral
-DebugNeutral == phase = "prog" => res.vdbg = res.vsrc
-\* C03 on the model: code generation is total on well-formed programs
-CodegenTotal == phase = "prog" => ~res.cannot
-\* non-vacuity helper: both verdicts occur
-Emit == phase = "prog" =>
-  PrintT(<<"REPLAY", ToJson([kind |-> "prog", tokens |-> TokProg(prog.items), accept |-> res.wf,
-                             wnames |-> [j \in 1..Len(prog.wdecls) |-> prog.wdecls[j][1]],
-                             wtypes |-> [j \in 1..Len(prog.wdecls) |-> prog.wdecls[j][2]],
-                             points |-> res.points, verdicts |-> res.vsrc,
-                             args |-> <<>>])>>)
+DiscardSeq == SetToSeq(DiscardStmts)
+MCProgramsOf(f) ==
+  IF f.kind = "discard"
+  THEN {[items |-> ObsProgram(FnDefs, DiscardDecls, DiscardSeq[i], TBool, V("a")),
+         wdecls |-> ObsWitDecls(DiscardDecls, TBool), args |-> EmptyFn]
+          : i \in {j \in 1..Len(DiscardSeq) : j % 4 = f.g}}
+  ELSE IF f.kind = "form"
+  THEN {[items |-> ObsProgram(<<>>, f.decls, <<>>, f.ty, e), wdecls |-> ObsWitDecls(f.decls, f.ty), args |-> EmptyFn]
+          : e \in Forms(f.ty, CtxOf(f.decls))}
+  ELSE {[items |-> ObsProgram(FnDefs, f.decls, <<>>, c.t, c.e), wdecls |-> ObsWitDecls(f.decls, c.t), args |-> EmptyFn]
+          : c \in {c2 \in FnCalls(CtxOf(f.decls)) : c2.e.f.n = f.f}}
 =============================================================================
